@@ -105,6 +105,8 @@ def run_scenario(chk, sc, cfgseed, ndims):
     for name, ok in checks:
         if not ok:
             return "attribute %s = %r does not match the header" % (name, getattr(pck, name))
+    if exp["finest"] >= 0 and [int(x) for x in pck.factors] != H["ratios"]:
+        return "attribute factors = %r, the header's ratio line states %r" % (list(pck.factors), H["ratios"])
     for l in range(L + 1):
         if not seq_eq(pck.dx[l], H["dx"][l]):
             return "dx[%d] = %r, header states %r" % (l, pck.dx[l], H["dx"][l])
@@ -183,3 +185,6 @@ def run(chk, replay):
         chk.traces += 1
         if v:
             chk.violation(sigs, v, {"sc": sc, "cfgseed": cfgseed, "ndims": ndims, "sigs": sigs})
+    # refinement ratios 2 / 4 / mixed, up to four levels (Refine.tla): factors, cell sizes, grid sizes, boxes as the header states
+    from harness import refine
+    refine.phase(chk, "meta")
